@@ -215,7 +215,7 @@ def tlc(module, cfg, workers=8, timeout=3600, simulate=None, depth=None, env=Non
     # evaluates the initial states and their invariants - is only taken from -Xss on the command line; with
     # JAVA_TOOL_OPTIONS alone deep recursive operators overflowed it, depending on JIT timing
     xss = os.environ.get("VERIF_TLC_XSS", "256m")
-    cmd = ["java", "-Xss" + xss, "-XX:+UseParallelGC", "-cp", TLA_CP, "tlc2.TLC", "-workers", str(workers), "-config", os.path.join(SPEC, cfg), "-metadir", os.path.join(wd, "states"),
+    cmd = ["java", "-Dfile.encoding=UTF-8", "-Xss" + xss, "-XX:+UseParallelGC", "-cp", TLA_CP, "tlc2.TLC", "-workers", str(workers), "-config", os.path.join(SPEC, cfg), "-metadir", os.path.join(wd, "states"),
            "-cleanup", "-noGenerateSpecTE", "-seed", str(SEED)]
     if coverage:
         cmd += ["-coverage", "1"]
@@ -269,7 +269,7 @@ def tlc_stream(module, cfg, stats, workers=8, timeout=14400, name=None, batch=20
     name = name or (os.path.splitext(os.path.basename(cfg))[0])
     wd = workdir("tlc_" + name)
     xss = os.environ.get("VERIF_TLC_XSS", "256m")
-    cmd = ["java", "-Xss" + xss, "-XX:+UseParallelGC", "-cp", TLA_CP, "tlc2.TLC", "-workers", str(workers), "-config", os.path.join(SPEC, cfg),
+    cmd = ["java", "-Dfile.encoding=UTF-8", "-Xss" + xss, "-XX:+UseParallelGC", "-cp", TLA_CP, "tlc2.TLC", "-workers", str(workers), "-config", os.path.join(SPEC, cfg),
            "-metadir", os.path.join(wd, "states"), "-cleanup", "-noGenerateSpecTE", "-seed", str(SEED), os.path.join(SPEC, module)]
     e = dict(os.environ)
     e["JAVA_TOOL_OPTIONS"] = "-Xss" + xss
@@ -321,7 +321,7 @@ def tlc_trace(module, cfg, trace_path, name=None, timeout=1800):
     Returns dict(records, bad=[[unit id, index of first unmatched record]...], states, transitions)."""
     name = name or ("trace_" + os.path.splitext(os.path.basename(trace_path))[0])
     wd = workdir("tlc_" + name)
-    cmd = ["java", "-Xss1g", "-Xmx4g", "-XX:+UseParallelGC", "-Dtlc2.tool.queue.IStateQueue=StateDeque", "-cp", TLA_CP, "tlc2.TLC",
+    cmd = ["java", "-Dfile.encoding=UTF-8", "-Xss1g", "-Xmx4g", "-XX:+UseParallelGC", "-Dtlc2.tool.queue.IStateQueue=StateDeque", "-cp", TLA_CP, "tlc2.TLC",
            "-workers", "1", "-config", os.path.join(SPEC, cfg), "-metadir", os.path.join(wd, "states"),
            "-cleanup", "-noGenerateSpecTE", os.path.join(SPEC, module)]
     e = dict(os.environ)
